@@ -3,7 +3,6 @@
 package main
 
 import (
-	"encoding/json"
 	"fmt"
 	"strconv"
 	"time"
@@ -278,7 +277,7 @@ func c11Run(r *vkit.Run) {
 
 func c11Replay(r *vkit.Run, v vkit.Violation) *vkit.Violation {
 	var in c11Input
-	if err := json.Unmarshal(v.Input, &in); err != nil {
+	if err := vkit.DecodeInput(v, &in); err != nil {
 		r.HarnessError("bad input: %v", err)
 	}
 	ch := v.Choices
